@@ -275,6 +275,46 @@ theorem C25_getitem_slice_full_false (d : Dialect) : ¬ C25_getitem_slice_full d
 theorem C25_getitem_whole_ok (s : List Char) (i : Option Int) (h : i.getD 0 = 0) : pySlice s i none = s :=
   pySlice_whole s i h
 
+/-! ### pinned parameters and the translator cache
+
+`param_to_const` turns a parameter bound into a constant of the SQL.  The translation is cached per query code, and
+`Query._get_translator` reuses it only if every entry of the ROOT translator's `fixed_param_values` equals the
+parameter's new value.  The model's `Fixed` component is that root dictionary. -/
+
+/-- every pinned parameter is recorded in `fixed_param_values`, with the very constant that went into the SQL -/
+theorem C25_pinned_recorded (fixed : Fixed) (isStart : Bool) (k : String) (v : Option Int) :
+    ∃ iv, (paramToConst fixed isStart (.param k v)).1 = .const iv ∧
+          (paramToConst fixed isStart (.param k v)).2.lookup k = some iv := by
+  cases h : fixed.lookup k with
+  | some iv => exact ⟨iv, by simp [paramToConst, h]⟩
+  | none => exact ⟨v.getD (if isStart then 0 else -1), by simp [paramToConst, h]⟩
+
+/-- CACHE OBLIGATION: if every value recorded in (the root's) `fixed_param_values` equals the parameter's new value —
+    the test `Query._get_translator` makes before reusing a cached translation — then translating again with the new
+    values gives the same result: reusing the cached translation is sound.  It is sound ONLY because every pinned
+    parameter is recorded there (`C25_pinned_recorded`). -/
+theorem C25_cache_reuse_sound (recv : Recv) (start stop : GArg) (vars : String → Option Int)
+    (h : ∀ k iv, (getitemSlice recv start stop []).2.lookup k = some iv → vars k = some iv) :
+    getitemSlice recv (GArg.rebind vars start) (GArg.rebind vars stop) [] = getitemSlice recv start stop [] := by
+  rw [getitemSlice_snd] at h
+  have h1 : paramToConst [] true (GArg.rebind vars start) = paramToConst [] true start :=
+    paramToConst_rebind [] true start vars (fun k iv hk => h k iv (lookup_mono _ false stop k iv hk))
+  have h2 : paramToConst (paramToConst [] true start).2 false (GArg.rebind vars stop)
+          = paramToConst (paramToConst [] true start).2 false stop :=
+    paramToConst_rebind _ false stop vars h
+  unfold getitemSlice
+  simp only [h1, h2]
+
+/-- …and it is sound only then: a cache test that does not see the pinned value (the value recorded somewhere the
+    root does not look, i.e. the test runs on an empty record) accepts a translation made for another bound:
+    `s[:n]` translated for n = 2 is reused for n = 5. -/
+theorem C25_cache_test_needs_record :
+    ∃ (start stop : GArg) (vars : String → Option Int),
+      (∀ k iv, ([] : Fixed).lookup k = some iv → vars k = some iv) ∧
+      (getitemSlice (.expr (.col "s")) (GArg.rebind vars start) (GArg.rebind vars stop) []).1
+        ≠ (getitemSlice (.expr (.col "s")) start stop []).1 :=
+  ⟨.omitted, .param "n" (some 2), fun _ => some 5, ⟨(by intro k iv h; cases h), (by decide)⟩⟩
+
 /-! ### `__getitem__`: index branch -/
 
 theorem C25_getitem_index (d : Dialect) (env : Env) (e : Sql) (s : List Char) (ix : GArg) (v : Int)
@@ -303,6 +343,7 @@ example : noNegConstLen (.const 2) (.const 5) (some 2) (some 5) := by
   unfold noNegConstLen; rintro ⟨_, _, b, hb, _, hlt⟩; cases hb; revert hlt; decide
 example : ¬ sentinelHit (.const 1) (.const (-1)) := by unfold sentinelHit shortcut; decide
 example : pyIndex "abc".toList (-1) = some 'c' := by decide
+example : (getitemSlice (.expr (.col "s")) (.param "a" (some 1)) (.param "b" (some (-1))) []).2.lookup "a" = some 1 := by decide
 example : pyStringSliceUdf (.str "abcdef".toList) (.str ['-', '2']) .null = .ok (.str "ef".toList) := by decide
 
 end PonyVerif.Props.C25
